@@ -68,6 +68,13 @@ def run(chk):
         chk.fail('C11.R1', repo.where(m, node), qual, ast.unparse(node)[:80], f'`{ast.unparse(node)[:80]}` mutates play state from outside the engine')
     chk.ok('C11.R1', 'package', 'no code outside PlayingPhase mutates leader / turn / trick number / counts / history / current trick')
 
+    from .playfold import acceptance_rule
+    acc = Check('C11', chk.tier, repo, chk.seed)
+    acceptance_rule(acc, 'C05.R5', 'C11.R2')
+    for f_ in acc.findings:
+        if f_.rule == 'C11.R2':
+            chk.fail('C11.R2', f_.where, f_.qual, f_.construct, f_.reason)
+    chk.evals(acc.evaluations)
     # ---- R2 (and the `exactly once, unmodified card` clause of R1) via the C05 summaries ------------------------------------
     from . import c05
     shadow = Check('C05', chk.tier, repo, chk.seed)
